@@ -184,8 +184,20 @@ def gen_coll_history(rng, path, nops, big=False, reopen=0.05, ids=None, q=None, 
     sizes = []
     seedc = [rng.randrange(1, 10**6)]
 
-    def meta():
+    nops_done = [0]
+
+    def meta(id_=None):
         n = pick_size(rng, sizes, big)
+        if id_ is not None and rng.random() < 0.10:
+            # aim a record at the growth quantum: span size = 4096 - d, d in 0..16 (remainders 0, 1..14, 15, 16 after a growth)
+            import chain
+            d = rng.randint(0, 16)
+            seq_guess = 2 + nops_done[0]
+            base = chain.record_size(seq_guess, len(str(id_)), [0, vec_size(q, dim)])
+            for cand in range(3900, 4200):
+                if chain.record_size(seq_guess, len(str(id_)), [cand, vec_size(q, dim)]) == 4096 - d:
+                    n = cand
+                    break
         sizes.append(n)
         seedc[0] += 1
         if n <= 40 and rng.random() < 0.5:
@@ -218,10 +230,12 @@ def gen_coll_history(rng, path, nops, big=False, reopen=0.05, ids=None, q=None, 
                 ops.append({'op': 32})
             continue
         if r < 0.34 or not live:
-            ops.append({'op': 20, 'id': id_, 'vec': P(data=random_vec_bytes(rng, q, dim)), 'meta': meta()})
+            ops.append({'op': 20, 'id': id_, 'vec': P(data=random_vec_bytes(rng, q, dim)), 'meta': meta(id_)})
             live.add(id_)
+            nops_done[0] += 1
         elif r < 0.48:
-            ops.append({'op': 21, 'id': id_, 'meta': meta()})
+            ops.append({'op': 21, 'id': id_, 'meta': meta(id_)})
+            nops_done[0] += 1
         elif r < 0.66:
             if rng.random() < 0.15 and live:
                 for x in sorted(live):      # delete all, then refill
